@@ -182,26 +182,40 @@ def check_opreturn(proc, chain, coin, start=0, end=None, prefix="opreturn"):
         return [(prefix + ":exit", "opreturn exited %s: %s" % (proc.rc, (proc.err or proc.out)[-400:]))]
     exp = model.opreturn_expected(chain, coin, start, end)
     text = "\n".join(model.strip_log(proc.out))
-    # expected text: each line prefix+payload+"\n" (payloads may contain newlines themselves)
-    pos = 0
-    bad = []
-    for i, (pre, txt) in enumerate(exp):
-        if txt is ANY:
-            # payload text not pinned: the line may be absent or carry anything up to the next expected prefix
-            nxt = exp[i + 1][0] if i + 1 < len(exp) else None
-            if text.startswith(pre, pos):
-                j = text.find("\n" + nxt, pos) if nxt else len(text) - 1
+    # expected text: each line prefix+payload+"\n" (payloads may contain newlines themselves). Outputs whose printed text
+    # is not pinned (ANY) may be absent or carry anything up to the next expected prefix: both alternatives are tried.
+    best = [0, 0]
+
+    def match(i, pos):
+        while i < len(exp):
+            pre, txt = exp[i]
+            if pos > best[1]:
+                best[0], best[1] = i, pos
+            if txt is ANY:
+                if match(i + 1, pos):          # line absent
+                    return True
+                if not text.startswith(pre, pos):
+                    return False
+                nxt = exp[i + 1][0] if i + 1 < len(exp) else None
+                j = text.find("\n" + nxt, pos + len(pre)) if nxt else len(text) - 1
                 if j < 0:
-                    bad.append((prefix + ":lines", "expected line %d (%s...) not found after an unpinned one" % (i + 1, nxt[:40])))
-                    return bad
-                pos = j + 1
-            continue
-        want = pre + txt + "\n"
-        if not text.startswith(want, pos):
-            bad.append((prefix + ":lines", "output line %d differs: got %r expected %r" % (i + 1, text[pos:pos + len(want) + 20][:300], want[:300])))
-            return bad
-        pos += len(want)
-    rest = text[pos:]
-    if rest.strip("\n") != "":
-        bad.append((prefix + ":extra", "unexpected extra output: %r" % rest[:300]))
-    return bad
+                    return False
+                i, pos = i + 1, j + 1
+                continue
+            want = pre + txt + "\n"
+            if not text.startswith(want, pos):
+                return False
+            pos += len(want)
+            i += 1
+        if pos > best[1]:
+            best[0], best[1] = i, pos
+        return text[pos:].strip("\n") == ""
+
+    if match(0, 0):
+        return []
+    i, pos = best
+    if i < len(exp):
+        pre, txt = exp[i]
+        want = pre + ("<unpinned>" if txt is ANY else txt) + "\n"
+        return [(prefix + ":lines", "output line %d differs: got %r expected %r" % (i + 1, text[pos:pos + len(want) + 20][:300], want[:300]))]
+    return [(prefix + ":extra", "unexpected extra output: %r" % text[pos:][:300])]
